@@ -41,8 +41,38 @@ def gen3(n):
         w: int = yield v
         if (t := (yield g(i + 31))) is not None:
             pass
+
+def sub4(i):
+    v = g(i + 40)
+    yield v
+
+def gen4(n):
+    for i in range(n):
+        r = yield from sub4(i)
+
+def gen5(n):
+    for i in range(n):
+        v = g(i + 50)
+        yield from [v]
+
+def gen6(n):
+    for i in range(n):
+        v = g(i + 60)
+        try:
+            yield v
+        except GeneratorExit:
+            return
+
+def gen7(n):
+    total = 0
+    for i in range(n):
+        total += (yield g(i + 70)) or 0
 '''
-NKINDS = 4
+NKINDS = 8
+# the selector 'generator as ancestor' of each kind (kind 7 captures a variable of the generator, which makes
+# its augmented assignment an instrumented statement)
+ANCESTOR = {k: "gen%d > g > a" % k for k in range(NKINDS)}
+ANCESTOR[7] = "gen7(total) > g > a"
 
 
 def run_history(chk, mod, drv, rng, stats):
@@ -52,7 +82,7 @@ def run_history(chk, mod, drv, rng, stats):
     env = mod.__dict__
     sels = {"plain": select("g > a", env=env)}
     for k in range(NKINDS):
-        sels[k] = select("gen%d > g > a" % k, env=env)
+        sels[k] = select(ANCESTOR[k], env=env)
     fired = []      # (overlay, which)
     ngens = rng.randrange(1, 4)
     lens = [rng.randrange(0, 4) for _ in range(ngens)]
@@ -188,8 +218,10 @@ def run(chk):
     drv = chk.open_driver()
     mod = pyprog.make_module(SRC, "verif_c09")
     chk.cov["rule"] = (
-        "histories of 5-15 operations over 1-3 instrumented generators (0-3 yields each, two generator "
-        "functions calling the same plain function g) and overlays carrying g > a, gen0 > g > a, gen1 > g > a: "
+        "histories of 5-15 operations over 1-3 instrumented generators (0-3 yields each; eight generator "
+        "functions calling the same plain function g: plain yield, yield as the value of a binding / chained / "
+        "annotated / walrus / augmented assignment, `yield from` a generator and a list, a generator that swallows "
+        "GeneratorExit) and overlays carrying g > a and genK > g > a for each kind: "
         "enter / leave overlays in any order, next, close, drop (+gc), driver calls of g; non-trivial = a "
         "generator is advanced and later something else happens (driver call, close, drop, overlay left)")
     stats = {"histories": 0, "disagreements": 0}
@@ -197,7 +229,6 @@ def run(chk):
         run_history(chk, mod, drv, chk.rng, stats)
     chk.cov["correspondence"]["histories"] = stats
     chk.assumptions += [
-        "generators that suspend inside `yield from` are not rewritten by ptera (YieldFrom is left untouched) and are outside the histories explored",
         "an exception thrown into a suspended generator (gen.throw) resumes it without the resume hook: the handling segment runs under the driver's context; not in the property's operation set",
     ]
     pyprog.drop_module(mod)
